@@ -13,7 +13,7 @@ inductive CalcOf (inp : RunInput) (n : Name) : Name → Prop
     a task_dep / file_dep owner delivered by one of its (possibly delivered) calc_deps -/
 inductive Dep (inp : RunInput) : Name → Name → Prop
   | task {n d} : d ∈ inp.taskDep n → Dep inp n d
-  | calc {n c} : CalcOf inp n c → Dep inp n c
+  | ofCalc {n c} : CalcOf inp n c → Dep inp n c
   | setup {n d} : d ∈ inp.setup n → Dep inp n d
   | resT {n p d} : CalcOf inp n p → d ∈ (inp.calcRes p).tasks → Dep inp n d
   | resF {n p d} : CalcOf inp n p → d ∈ (inp.calcRes p).files → Dep inp n d
@@ -232,7 +232,7 @@ theorem nodeStep_allN {s s' : Sys} {n : Name} {nd : Node} {perm : List Name} (hr
     cases todo with
     | cons d ds =>
       cases hs
-      exact genStep_allN hr d _ h hn (Dep.calc (hp d (by simp))) (fun x hx => hp x (by simp [hx]))
+      exact genStep_allN hr d _ h hn (Dep.ofCalc (hp d (by simp))) (fun x hx => hp x (by simp [hx]))
     | nil =>
       cases hs
       exact addWaitRun_allN _ _ _ h hn (fun _ => hnd.sc) (fun e => by cases e) hnd.st
